@@ -220,7 +220,11 @@ impl Doc {
 
                                 let mut pushed = 0;
                                 if let Some(missing) = margin.checked_sub(char_pos) {
-                                    res.push_str(&PADDING[..missing]);
+                                    // margins of deeply nested blocks can exceed the padding constant
+                                    for _ in 0..missing / PADDING.len() {
+                                        res.push_str(PADDING);
+                                    }
+                                    res.push_str(&PADDING[..missing % PADDING.len()]);
                                     char_pos = margin;
                                     pushed = missing;
                                 }
